@@ -207,7 +207,7 @@ func (pureEngine) Run(t *testing.T, batch string, tape *rt.Tape, runIdx uint64, 
 		switch tape.Choose("pu.kind", 6) {
 		case 0, 1:
 			op.Kind = "unserialize"
-			vg := &ValGen{S: tape, Scope: recipe, Corrupt: chance(tape, "pu.bad", 1, 4)}
+			vg := &ValGen{S: tape, Scope: recipe, Corrupt: chance(tape, "pu.bad", 1, 4), InProcess: true}
 			op.Arg = vg.Object(recipe.Root, nil)
 		case 2:
 			op.Kind = "validate"
@@ -215,7 +215,7 @@ func (pureEngine) Run(t *testing.T, batch string, tape *rt.Tape, runIdx uint64, 
 			op.Kind = "serialize"
 		case 4:
 			op.Kind = "compat-data"
-			vg := &ValGen{S: tape, Scope: recipe, Corrupt: chance(tape, "pu.bad", 1, 4)}
+			vg := &ValGen{S: tape, Scope: recipe, Corrupt: chance(tape, "pu.bad", 1, 4), InProcess: true}
 			op.Arg = vg.Object(recipe.Root, nil)
 		case 5:
 			op.Kind = "compat-schema"
@@ -225,7 +225,7 @@ func (pureEngine) Run(t *testing.T, batch string, tape *rt.Tape, runIdx uint64, 
 			if len(pool) > 0 && tape.Choose("pu.frompool", 4) != 0 {
 				op.Arg = pool[tape.Choose("pu.pool", len(pool))]
 			} else {
-				vg := &ValGen{S: tape, Scope: recipe, Corrupt: chance(tape, "pu.bad", 1, 4)}
+				vg := &ValGen{S: tape, Scope: recipe, Corrupt: chance(tape, "pu.bad", 1, 4), InProcess: true}
 				op.Arg = vg.Object(recipe.Root, nil)
 			}
 		}
